@@ -540,7 +540,11 @@ def evaluate_sizes(nodes, warn=null_warn, visited=None):
     visited = set() if visited is None else visited  # included files (by identity) evaluated in this pass
 
     def evaluate_node_size(node_, parent, member):
+        chain = []
         while isinstance(node_, Typedef) and node_.definition:
+            if any(node_ is one for one in chain):
+                raise ModelError("Cyclic definition of typedef '%s'." % node_.name)
+            chain.append(node_)
             node_ = node_.definition
         if isinstance(node_, (Struct, Union)):
             return node_.byte_size, node_.alignment
